@@ -190,6 +190,10 @@ func genOps(g *GenCtx, keyed bool, n int) {
 }
 
 func gen(g *GenCtx) {
+	if g.Parts > 1 {
+		// every part gets its own stream (hvlib seeds all parts alike)
+		g.R = NewRng(g.R.U64() ^ uint64(g.Part+1)*0x9E3779B97F4A7C15)
+	}
 	if g.Part == 0 {
 		vectors(g)
 		// every operand length 0..280 once per operation kind, keyed mode (two rate boundaries)
